@@ -9,6 +9,8 @@ CONSTANTS
   Alphabet <- AllCmds
   PreAlphabet <- AllCmds
   Kinds <- AllKinds
+  Modes <- ScriptMode
+  Fins <- NormalFin
   Ctxs <- MainCtx
 SPECIFICATION TraceSpec
 POSTCONDITION Accepted
